@@ -80,7 +80,7 @@ func newChild(s *Step) (*security.ChildSAKey, error) {
 
 type childKeys struct{ Ei, Ai, Er, Ar []byte }
 
-func deriveChild(s *Step, ike *security.IKESAKey) (*childKeys, *callResult) {
+func deriveChild(s *Step, ike *security.IKESAKey, nonceArg ...[]byte) (*childKeys, *callResult) {
 	res := &callResult{}
 	res.RandSt = simRand.begin(RandScript{Seed: 31})
 	var out *childKeys
@@ -91,6 +91,9 @@ func deriveChild(s *Step, ike *security.IKESAKey) (*childKeys, *callResult) {
 			return
 		}
 		nonce := clone(s.Nonce)
+		if len(nonceArg) > 0 {
+			nonce = nonceArg[0] // the caller's own slice, handed to several derivations
+		}
 		if err := c.GenerateKeyForChildSA(ike, nonce); err != nil {
 			res.Err = err
 			return
@@ -125,7 +128,10 @@ func opChild(w *World, s *Step) (string, string) {
 		sd = "I"
 	}
 	obj := sa.Obj[side(sd)]
-	got, res := deriveChild(s, obj)
+	// the caller keeps ONE slice holding Ni|Nr and hands it to every derivation that needs it
+	callerNonce := clone(s.Nonce)
+	w.ext["child_nonce_arg"] = callerNonce
+	got, res := deriveChild(s, obj, callerNonce)
 	uses, _ := w.ext[fmt.Sprintf("uses%d%s", s.SA, sd)].(int)
 	w.ext[fmt.Sprintf("uses%d%s", s.SA, sd)] = uses + 1
 	abs := fmt.Sprintf("%s:%d:%s:via=%v:%s:n%s", sa.Suite.Prf, s.ChildEncr, s.ChildInteg, s.ViaProp, res.class(), lenClass(len(s.Nonce)))
@@ -163,7 +169,8 @@ func c08Check(w *World, s *Step, sa *SA, got *childKeys, res *callResult, uses i
 	// the keys a freshly constructed copy of the IKE SA would give
 	fresh, err := newKeyObj(sa.Suite, sa.Keys)
 	if err == nil {
-		tw, tres := deriveChild(s, fresh)
+		callerNonce, _ := w.ext["child_nonce_arg"].([]byte)
+		tw, tres := deriveChild(s, fresh, callerNonce)
 		if tres.class() == "ok" && tw.hash() != got.hash() {
 			w.violate("child_differs_from_fresh_sa", what, "derivation #%d on the long-lived IKE SA object differs from the same derivation on a fresh copy of that IKE SA", uses+1)
 		}
